@@ -50,7 +50,9 @@ EXPLANATION = ("partial claim: (a) purity of accessors/stages/writers by solver-
                "order of the variant set, decided by model-sequence identity / z3.Optimize "
                "on the captured models and confirmed with real hash seeds. Multi-gene file "
                "runs and process-level effects other than the hash seed are not claimed.")
-FUNCTIONS = ["aldy.solutions.SolvedAllele.{mutations,major_repr,__str__,__hash__}",
+FUNCTIONS = ["aldy.sam.Sample.__init__ (tail) / Coverage.average_coverage on an empty locus",
+             "aldy.minor.solve_minor_model (construction order)",
+             "aldy.solutions.SolvedAllele.{mutations,major_repr,__str__,__hash__}",
              "aldy.solutions.MinorSolution.{get_*,_solution_nice}",
              "aldy.solutions.{CNSolution,MajorSolution}.{__str__,_solution_nice,position_cn}",
              "aldy.gene.Gene.{get_functional,is_functional,get_rsid,get_refseq,get_allele,"
@@ -60,7 +62,7 @@ FUNCTIONS = ["aldy.solutions.SolvedAllele.{mutations,major_repr,__str__,__hash__
              "aldy.minor.estimate_minor", "aldy.diplotype.{write_decomposition,write_vcf,"
              "estimate_diplotype}", "aldy.query.query"]
 STUBS = ["candidates: minor.solve_minor_model -> recorder of the coverage it is handed; "
-         "Coverage.coverage/total -> symbolic counts with the real filter functions",
+         "observation lists have symbolic lengths; the real Coverage.coverage/total/filtered and the real filter functions run on them",
          "hashorder: aldy.minor.set -> set subclass with an injected iteration order; "
          "lpinterface.model -> capturing backend"]
 OUTSIDE = ["multi-gene recursion through files / a failing gene in a multi-gene run "
@@ -89,6 +91,10 @@ def configs(tier):
         c.append({"kind": "purity", "gene": g})
         c.append({"kind": "stages", "gene": g})
         c.append({"kind": "candidates", "gene": g})
+    # a gene that cannot be genotyped must end in a *reported* error (AldyException): the
+    # multi-gene loop catches only those, anything else aborts the other genes' results.
+    # Real Sample() tail on an empty locus with symbolic neutral depths (shared with C19)
+    c.append({"kind": "neutral"})
     # iteration (hash) order of the variant set in the minor model
     two = [[5060, "A>C"], [5060, "A>G"]]
     for perm in range(4 if tier == "quick" else 11):
@@ -101,6 +107,9 @@ def configs(tier):
 
 
 def run_config(cfg):
+    if cfg["kind"] == "neutral":
+        import c19
+        return c19.run_neutral(cfg)
     return globals()["run_" + cfg["kind"]](cfg)
 
 
@@ -809,4 +818,7 @@ def replay_none(o):
 
 
 def replay(o):
+    if o["kind"] == "neutral":
+        import c19
+        return c19.replay_neutral(o)
     return globals()["replay_" + o["kind"]](o)
